@@ -104,6 +104,19 @@ func (w *World) mutateProposal(n *Node, h int64, t time.Time, pv *cmttypes.Valid
 			BeaconRoot: &beacon, GoatTxs: append([][]byte{}, p.Transactions[:nGoat]...)}
 	}
 	switch mut {
+	case "append-probe":
+		if len(w.ProbeTxs) == 0 {
+			return nil, false
+		}
+		out := append([][]byte{}, txs...)
+		for _, p := range w.ProbeTxs {
+			if len(out) >= 16 {
+				break
+			}
+			out = append(out, p)
+		}
+		w.ProbeTxs = nil
+		return out, true
 	case "drop-first":
 		return append([][]byte{}, rest...), true
 	case "dup-first":
